@@ -291,3 +291,140 @@ func millisChecked(v ssa.Value, at ssa.Instruction) bool {
 	}
 	return false
 }
+
+// ruleLeaseDuration: C17 LEASE-DURATION.
+//
+// The timing assumption of lease reads is stated in terms of the CONFIGURED lease duration (lease duration plus message
+// delay below the election timeout). So the duration a lease is extended by at each renewal must be that option, at
+// every place a lease is created — in particular the one a new leader gets: a lease built with the election timeout
+// (or any other value) outlives the voters' promise by the reply delay.
+func ruleLeaseDuration() *Rule {
+	const id = "LEASE-DURATION"
+	return &Rule{
+		ID: id,
+		Text: "Every lease is created with the configured lease duration (every call of newOperationManager passes options.leaseDuration; newOperationManager hands its parameter to newLease; newLease stores it in lease.duration), " +
+			"and renew sets expiration := time.Now().Add(that duration) and nothing else writes it but the constructor.",
+		Floor: 4,
+		Run: func(p *Program) []Obligation {
+			nom := p.Func("newOperationManager")
+			nl := p.Func("newLease")
+			renew := p.Func("(*lease).renew")
+			durFld := p.Field("lease.duration")
+			expFld := p.Field("lease.expiration")
+			optFld := p.Field("options.leaseDuration")
+			if nom == nil || nl == nil || renew == nil || durFld == nil || expFld == nil || optFld == nil {
+				return missing(id, "newOperationManager / newLease / (*lease).renew / lease.duration / options.leaseDuration")
+			}
+			var out []Obligation
+			isOptLoad := func(v ssa.Value) bool {
+				u, ok := stripConv(v).(*ssa.UnOp)
+				if !ok || u.Op != token.MUL {
+					return false
+				}
+				fa, ok := u.X.(*ssa.FieldAddr)
+				return ok && fieldOf(fa.X.Type(), fa.Field) == optFld
+			}
+			// 1. call sites of newOperationManager (and of newLease outside it)
+			for _, fn := range p.SortedFuncs() {
+				ord := 0
+				for _, b := range fn.Blocks {
+					for _, in := range b.Instrs {
+						c, ok := in.(*ssa.Call)
+						if !ok {
+							continue
+						}
+						callee := c.Common().StaticCallee()
+						if callee != nom && !(callee == nl && fn != nom) {
+							continue
+						}
+						ord++
+						ob := Obligation{Rule: id, Construct: "duration of the lease created by " + FuncName(callee) + ordSuffix(ord) + " in " + FuncName(fn), Pos: p.InstrPos(in)}
+						if isOptLoad(c.Common().Args[0]) {
+							ob.Verdict, ob.Detail = Discharged, "= options.leaseDuration"
+						} else {
+							ob.Verdict = Violated
+							ob.Detail = "the lease is created with " + p.Canon(NewRootFrame(fn), c.Common().Args[0]).S + ", not with the configured lease duration: the timing assumption of lease reads (lease duration + message delay < election timeout) is stated for the configured value"
+						}
+						out = append(out, ob)
+					}
+				}
+			}
+			// 2. plumbing: newOperationManager -> newLease -> lease.duration
+			ob := Obligation{Rule: id, Construct: "newOperationManager hands its duration to newLease", Pos: p.Pos(nom.Pos())}
+			okPlumb := false
+			for _, b := range nom.Blocks {
+				for _, in := range b.Instrs {
+					if c, ok := in.(*ssa.Call); ok && c.Common().StaticCallee() == nl && stripConv(c.Common().Args[0]) == ssa.Value(nom.Params[0]) {
+						okPlumb = true
+					}
+				}
+			}
+			if okPlumb {
+				ob.Verdict, ob.Detail = Discharged, "newLease(leaseDuration)"
+			} else {
+				ob.Verdict, ob.Detail = Violated, "newOperationManager does not pass its parameter to newLease unchanged"
+			}
+			out = append(out, ob)
+			ob = Obligation{Rule: id, Construct: "newLease stores its duration", Pos: p.Pos(nl.Pos())}
+			okStore := false
+			for _, b := range nl.Blocks {
+				for _, in := range b.Instrs {
+					if s, fld := storeField(in); s != nil && fld == durFld && stripConv(s.Val) == ssa.Value(nl.Params[0]) {
+						okStore = true
+					}
+				}
+			}
+			if okStore {
+				ob.Verdict, ob.Detail = Discharged, "lease.duration := duration"
+			} else {
+				ob.Verdict, ob.Detail = Violated, "newLease does not store its parameter in lease.duration unchanged"
+			}
+			out = append(out, ob)
+			// 3. renew: expiration := time.Now().Add(l.duration); writers of duration/expiration
+			ob = Obligation{Rule: id, Construct: "renewal extends the lease by lease.duration from now", Pos: p.Pos(renew.Pos())}
+			okRenew := false
+			for _, b := range renew.Blocks {
+				for _, in := range b.Instrs {
+					s, fld := storeField(in)
+					if s == nil || fld != expFld {
+						continue
+					}
+					add, ok := s.Val.(*ssa.Call)
+					if !ok || add.Common().StaticCallee() == nil || add.Common().StaticCallee().Name() != "Add" || len(add.Common().Args) != 2 {
+						continue
+					}
+					now, ok := add.Common().Args[0].(*ssa.Call)
+					if !ok || now.Common().StaticCallee() == nil || now.Common().StaticCallee().Name() != "Now" {
+						continue
+					}
+					if u, ok := stripConv(add.Common().Args[1]).(*ssa.UnOp); ok && u.Op == token.MUL {
+						if fa, ok := u.X.(*ssa.FieldAddr); ok && fieldOf(fa.X.Type(), fa.Field) == durFld {
+							okRenew = true
+						}
+					}
+				}
+			}
+			if okRenew {
+				ob.Verdict, ob.Detail = Discharged, "expiration := time.Now().Add(l.duration)"
+			} else {
+				ob.Verdict, ob.Detail = Violated, "renew does not set expiration to time.Now().Add(l.duration)"
+			}
+			out = append(out, ob)
+			// other writers of the two fields
+			for _, fn := range p.SortedFuncs() {
+				if fn == nl || fn == renew {
+					continue
+				}
+				for _, b := range fn.Blocks {
+					for _, in := range b.Instrs {
+						if s, fld := storeField(in); s != nil && (fld == durFld || fld == expFld) {
+							out = append(out, Obligation{Rule: id, Construct: "write of lease." + fld.Name() + " in " + FuncName(fn), Pos: p.InstrPos(in), Verdict: Violated,
+								Detail: "the lease's duration/expiration is written outside newLease and renew: the lease can be extended by something other than a confirmed round"})
+						}
+					}
+				}
+			}
+			return out
+		},
+	}
+}
